@@ -22,9 +22,11 @@ Kinds == {"minCount", "maxCount", "exactCount", "minLength", "maxLength", "exact
 PathShapes == {"pred", "seq", "alt", "inverse", "altInSeq", "seqInAlt", "type", "altMixedInverse", "seq3", "altOfAlt",
                "underscore",
                \* alternatives of different direction after one / two sequence steps, in both orders
-               "seqThenAltMixed", "seqThenAltMixedRev", "seq2ThenAltMixed", "seq2ThenAltMixedRev"}
+               "seqThenAltMixed", "seqThenAltMixedRev", "seq2ThenAltMixed", "seq2ThenAltMixedRev",
+               \* a long path: 24 sequence steps
+               "seq24"}
 Contexts == {"plain", "not", "or", "and", "if", "then", "else", "notIfThenElse"}
-Siblings == {1, 2, 3, 5, 8, 11, 12, 13, 20, 30}
+Siblings == {1, 2, 3, 5, 8, 11, 12, 13, 20, 30, 70}
 \* OPA compile time grows ~3.5x per nesting level (measured: depth 8 3 s, 9 11 s, 10 40 s): depth is capped at 8;
 \* many variables in one validation are reached through siblings x depth instead
 Depths == {1, 2, 3, 5, 7, 8}
